@@ -82,7 +82,44 @@ var c18Templates = map[string]string{
 	"w.txt":        "{% for i in 1..20 %}{{ x matches 'n$' }}{{ i matches '^1' }};{% endfor %}",
 	"ops.txt":      "{{ 1 + 2 - 3 * 4 / 5 // 6 % 7 ** 2 }}{{ x ~ 'y' == 'plainy' != false }}{{ 1 < 2 <= 3 > 0 >= 1 }}{{ t and not f or t }}{{ 2 in [1, 2] }}{{ 3 not in 1..2 }}{{ x starts with 'pl' }}{{ x ends with 'in' }}{{ 6 b-and 3 b-or 8 b-xor 1 }}{{ t ? 'a' : 'b' }}{{ -1 + +2 }}{{ {'k': [1, 2]}.k[1] }}{{ \"i#{1 + 1}\" }}",
 	"filters.html": "{{ x|upper|lower|title|capitalize|trim }}{{ items|length }}{{ items|join('-') }}{{ items|first }}{{ items|last }}{{ items|reverse|join }}{{ items|batch(2, 'f')|length }}{{ items|keys|join }}{{ items|merge([9])|length }}{{ 3.14159|round(2) }}{{ -5|abs }}{{ nothing|default('d') }}{{ x|url_encode }}{{ x|json_encode }}{{ x|replace({'a': 'b'}) }}{{ 'now'|date('Y')|length }}{{ x|escape('js') }}{{ x|raw }}",
+	// values shared by every context (one Go slice with spare capacity, one Go map): results built from them
+	"merge.txt": "{{ shared|merge([x])|join(',') }}|{{ shared|merge(items)|length }}|{{ sharedmap|merge({'a': x})|join(',') }}|{{ shared|reverse|join(',') }}|{{ shared|batch(1)|length }}|{{ shared|slice(0, 1)|merge([x, x])|join('+') }}",
+	// run-time errors after partial output inside every capturing construct
+	"failfilter.html": "{% filter upper %}partial-{{ x }}-{{ nofunc() }}{% endfilter %}",
+	"failset.html":    "{% set c %}partial-{{ x }}{{ nofunc() }}{% endset %}[{{ c }}]",
+	"failmacro.html":  "{% macro m(v) %}partial-{{ v }}{{ nofunc() }}{% endmacro %}[{{ _self.m(x) }}]",
+	"failblock.html":  "{% set c = block('b') %}{% block b %}partial-{{ x }}{% if t %}{{ nofunc() }}{% endif %}{% endblock %}",
+	"failinc.html":    "{% filter upper %}outer-{% include 'runtime.html' %}{% endfilter %}",
 	"tests.txt":    "{{ 4 is pos }}{{ 0 is not pos }}{% for i in items if i %}{{ loop.index }}{{ i }}{% else %}none{% endfor %}",
+}
+
+// c18Shared / c18SharedMap are read-only values that every context refers to (the same Go slice, with spare
+// capacity behind its length, and the same Go map): no call may write to them, visibly or not.
+var c18Shared = append(make([]stick.Value, 0, 8), "s0", "s1")
+var c18SharedMap = map[string]stick.Value{"a": 1}
+
+func init() {
+	for _, c := range c18Ctx {
+		c["shared"] = c18Shared
+		c["sharedmap"] = c18SharedMap
+	}
+}
+
+// c18SharedIntact reports a modification of the shared values (also beyond the slice's length).
+func c18SharedIntact() string {
+	full := c18Shared[:cap(c18Shared)]
+	if len(c18Shared) != 2 || full[0] != "s0" || full[1] != "s1" {
+		return fmt.Sprintf("the shared slice was changed: %v", c18Shared)
+	}
+	for i := 2; i < len(full); i++ {
+		if full[i] != nil {
+			return fmt.Sprintf("the spare capacity of the shared slice was written to: slot %d = %v", i, full[i])
+		}
+	}
+	if len(c18SharedMap) != 1 || c18SharedMap["a"] != 1 {
+		return fmt.Sprintf("the shared map was changed: %v", c18SharedMap)
+	}
+	return ""
 }
 
 var c18Ctx = []map[string]stick.Value{
@@ -320,6 +357,9 @@ func (p *c18) Run(i int) (res fw.Result) {
 	}
 	close(start)
 	wg.Wait()
+	if bad := c18SharedIntact(); bad != "" {
+		res.Fail("caller-value-changed", "c18:shared", fmt.Sprintf("round %d: a value handed in through the context was modified: %s", i, bad), nil)
+	}
 	res.Evals = rd.goroutines * rd.calls
 	res.AddObs("concurrent_calls", int64(res.Evals))
 	for g, ms := range results {
@@ -357,7 +397,7 @@ func (p *c18) Run(i int) (res fw.Result) {
 }
 
 func (p *c18) Rule() string {
-	return fmt.Sprintf("rounds: N in {2,4,16,64} goroutines released by one barrier, each doing 3..6 calls decided beforehand (Execute or Parse, Twig or core environment, one of %d hand-written templates and 10 (quick) / 24 (thorough) generated multi-template programs (every tag and operator, inheritance chains, include/embed/use/import; own name prefix each), mixing .html/.js/.css/.txt/no extension/unknown extension, blocks, inheritance, include and embed of another content type, macros, imports, filter sections, captures, a syntax error and a run-time error; 4 contexts) with its own context map and buffer, on ONE shared twig.New and ONE shared stick.New environment per worker process; GOMAXPROCS in {1,2,16}. Even rounds run in -race workers (traverse hook = bare Gosched at module/block/body/print nodes, no monitor-side synchronisation); odd rounds in plain workers (hook = seeded yields and micro-sleeps, global module-enter event log). Oracles: (1) the race detector's log (halt_on_error=0, log_path) parsed by the driver: every report with a library frame is a violation, deduplicated by the set of library functions involved; (2) every concurrent result (output and error text, or the parsed tree's String()) equals the result of the same call on a fresh identically configured environment run alone; (3) no panic in any goroutine. Non-trivial = plain-build round in which >=2 calls were in flight at once; distinct = (N, hash of the global order of module-enter events).", len(c18Templates))
+	return fmt.Sprintf("rounds: N in {2,4,16,64} goroutines released by one barrier, each doing 3..6 calls decided beforehand (Execute or Parse, Twig or core environment, one of %d hand-written templates and 10 (quick) / 24 (thorough) generated multi-template programs (every tag and operator, inheritance chains, include/embed/use/import; own name prefix each), mixing .html/.js/.css/.txt/no extension/unknown extension, blocks, inheritance, include and embed of another content type, macros, imports, filter sections, captures, a syntax error, run-time errors (also after partial output inside a filter section, a capture, a macro, a block and an include), filters building new values from a slice (with spare capacity) and a map that ALL contexts share; 4 contexts) with its own context map and buffer, on ONE shared twig.New and ONE shared stick.New environment per worker process; GOMAXPROCS in {1,2,16}. Even rounds run in -race workers (traverse hook = bare Gosched at module/block/body/print nodes, no monitor-side synchronisation); odd rounds in plain workers (hook = seeded yields and micro-sleeps, global module-enter event log). Oracles: (1) the race detector's log (halt_on_error=0, log_path) parsed by the driver: every report with a library frame is a violation, deduplicated by the set of library functions involved; (2) every concurrent result (output and error text, or the parsed tree's String()) equals the result of the same call on a fresh identically configured environment run alone; (3) no panic in any goroutine; (4) the shared context values are unchanged after every round, spare capacity included. Non-trivial = plain-build round in which >=2 calls were in flight at once; distinct = (N, hash of the global order of module-enter events).", len(c18Templates))
 }
 
 func (p *c18) Assumptions() []string {
